@@ -77,3 +77,13 @@ Definition model_applied_framed (k : case) : bool :=
   let o := run k in
   let fr := frames md5 (scanned k) in
   forallb (fun e => existsb (fun f => match f with EvTG _ id _ => id =? fst e | _ => false end) fr) (r_applied o).
+
+(** the three per-case verdicts share one run of the model and one frame list (the driver evaluates each
+    query separately; this keeps every query at one model run) *)
+Definition model_prop (k : case) : bool :=
+  let o := run k in
+  let fr := frames md5 (scanned k) in
+  let dom := (r_code o =? 0)%nat && nodupb (keys fr)
+             && forallb (fun t => negb (t =? 0) && framed_harmless (k_root k) t fr) (k_req k) in
+  implb dom (forallb (fun t => existsb (fun e => fst e =? t) (r_applied o)) (k_req k))
+  && forallb (fun e => existsb (fun f => match f with EvTG _ id _ => id =? fst e | _ => false end) fr) (r_applied o).
